@@ -1,6 +1,7 @@
 import Tsg.Driver.Ops
 import Tsg.Driver.Fn
 import Tsg.Driver.GraphIO
+import Tsg.Driver.Exec
 
 open Driver
 
@@ -16,6 +17,7 @@ def handle (st : DState) (req : Sexp) : DState × Sexp :=
     | some tr => ({ st with tree := tr }, .list [.atom "ok", Sexp.ofNat tr.nodes.size])
     | none => (st, .list [.atom "bad-request"])
   | .list (.atom "fn" :: rest) => (st, handleFn st.tree rest)
+  | .list (.atom "exec" :: rest) => (st, handleExec st.tree rest)
   | .list (.atom "json" :: rest) => (st, handleJson rest)
   | .list (.atom "pretty" :: rest) => (st, handlePretty st.tree rest)
   | .list [.atom "ping"] => (st, .atom "pong")
